@@ -305,7 +305,15 @@ def rule_temporary_stays_private(ctx):
     ctx.floor("C19.e traces", n, 1)
 
 
+def rule_bookkeeping_upserts(ctx):
+    """C19.f = C09.c: every side-table write is one overwriting upsert statement (ON CONFLICT (<primary key>) DO UPDATE) — a
+    delete-then-insert pair, or a plain insert, is two steps between which another session reads no row or collides on the key."""
+    from .c09 import rule_keys
+    rule_keys(ctx)
+
+
 RULES = [
+    ("C19.f", rule_bookkeeping_upserts, ("quick", "thorough")),
     ("C19.e", rule_temporary_stays_private, ("quick", "thorough")),
     ("C19.d", rule_own_creates_idempotent, ("quick", "thorough")),
     ("C19.a", rule_check_then_create, ("quick", "thorough")),
